@@ -959,7 +959,7 @@ def run(ctx):
         account(ctx, case, execute(ctx, case))
     # 2h. stored lines that arrive again (verbatim, or in another key / value order), value lists that hold a value more
     #     than once; every strategy, GFF3 and GTF, create_db and update
-    for i in range(ctx.budget(520, 11000)):
+    for i in range(ctx.budget(400, 11000)):
         strategy = "merge" if i % 2 == 0 else rng.choice(M.STRATEGIES)
         force = rng.choice(M.subsets()) if strategy == "merge" and rng.random() < 0.4 else []
         fmt = rng.choice(["gff3", "gff3", "gtf"])
